@@ -7,7 +7,7 @@ import itertools
 import re
 from typing import Dict, List, Optional, Tuple
 
-from ..astutil import call_name, calls_in, dotted, unparse, walk_local, walk_stmts
+from ..astutil import ancestors, call_name, calls_in, dotted, unparse, walk_local, walk_stmts
 from ..report import Registry, chain, sub
 from ._helpers_rob_B2 import bool_binds, expand, read_aliases, resolved_atom_set, single_binds, transitive_owner
 
@@ -268,6 +268,29 @@ def r2(ctx):
 
 
 # ---------------------------------------------------------------------- R3
+# attribute of an InstanceState -> lifecycle atom whose truth it carries (an object while attached, None otherwise); that
+# `session` is looked up from `session_id` is confirmed on the tree by C35-R5 (`_attached_objects_confirmed`)
+ATTACHED_OBJECTS = {"session_id": "A", "session": "A"}
+
+
+def _attached_objects_confirmed(ctx):
+    """InstanceState.session yields an object only under `self.session_id` (every `return <not None>` is dominated by that
+    test): an unattached state has no session, so `state.session` / `_state_session(state)` is falsy for it."""
+    from ..astutil import test_atoms
+    cls = ctx.index.cls(f"{STATE}::InstanceState")
+    f = cls.methods.get("session")
+    ctx.require(f is not None and any(d.rsplit(".", 1)[-1] == "property" for d in f.decorators), "InstanceState.session is not a property")
+    ctx.functions_analysed.add(f.key)
+    g = ctx.cfg(f)
+    rets = [n for n in g.nodes if n.kind == "stmt" and isinstance(n.stmt, ast.Return)]
+    objs = [n for n in rets if not (n.stmt.value is None or (isinstance(n.stmt.value, ast.Constant) and n.stmt.value.value is None))]
+    ctx.require(objs and len(objs) < len(rets), "InstanceState.session does not return a session on some path and None on another")
+    for n in objs:
+        atoms = {a for t, pol in g.edge_guards(n.id) for a in test_atoms(t, pol)}
+        ctx.require(("self.session_id", True) in atoms or ("self.session_id is None", False) in atoms,
+                    f"InstanceState.session returns `{unparse(n.stmt.value)}` without testing self.session_id")
+
+
 class _Sim:
     """Sequential interpretation of one dispatch function over the lifecycle atoms of one receiver."""
 
@@ -278,13 +301,40 @@ class _Sim:
         self.aliases = aliases  # local name -> event name
         self.params = params
         self.dnames = set(dnames)  # locals bound to `<x>.dispatch`
+        # attributes of the receiver that hold an object exactly while it is attached (`state.session_id`, and the session
+        # looked up from it, `state.session`): their truthiness / `is not None` is the atom "attached"
+        self.optional = dict(ATTACHED_OBJECTS)
 
     def run(self, body, store, env):
         self.store = dict(store)
         self.env = dict(env)
+        self.optnames = set()  # locals bound to such an attribute (`s = state.session`): `s is not None` == truthiness
         self.fired: List[str] = []
         self._block(body)
         return self.fired, self.store
+
+    def _props(self, name, store):
+        return store[self.optional[name]] if name in self.optional else None
+
+    def _is_optional(self, e) -> bool:
+        return (isinstance(e, ast.Name) and e.id in self.optnames) or (isinstance(e, ast.Attribute) and dotted(e.value) == self.recv and e.attr in self.optional)
+
+    def _norm(self, expr):
+        """`<optional object> is not None` -> `<optional object>`, `... is None` -> `not ...`."""
+        sim = self
+
+        class T(ast.NodeTransformer):
+            def visit_Compare(self, n):
+                self.generic_visit(n)
+                if (len(n.ops) == 1 and isinstance(n.ops[0], (ast.Is, ast.IsNot)) and isinstance(n.comparators[0], ast.Constant)
+                        and n.comparators[0].value is None and sim._is_optional(n.left)):
+                    return n.left if isinstance(n.ops[0], ast.IsNot) else ast.UnaryOp(op=ast.Not(), operand=n.left)
+                return n
+
+        if not any(isinstance(n, ast.Compare) for n in ast.walk(expr)):
+            return expr
+        import copy
+        return ast.fix_missing_locations(T().visit(copy.deepcopy(expr)))
 
     def _relevant(self, st) -> bool:
         for n in ast.walk(st):
@@ -304,7 +354,7 @@ class _Sim:
                 return True
             if isinstance(st, ast.If):
                 try:
-                    t = _ev(st.test, self.recv, self.store, self.env, self.aliases)
+                    t = _ev(self._norm(st.test), self.recv, self.store, self.env, self.aliases, self._props)
                 except _Unknown as u:
                     ends = any(isinstance(x, (ast.Continue, ast.Return, ast.Break)) for x in ast.walk(st))
                     self.ctx.require(not self._relevant(st) and not ends, f"{self.fkey}: cannot evaluate `{u}` guarding a lifecycle dispatch / state write")
@@ -314,9 +364,14 @@ class _Sim:
                 continue
             if isinstance(st, ast.Assign) and len(st.targets) == 1 and isinstance(st.targets[0], ast.Name):
                 try:
-                    self.env[st.targets[0].id] = _ev(st.value, self.recv, self.store, self.env, self.aliases)
+                    self.env[st.targets[0].id] = _ev(self._norm(st.value), self.recv, self.store, self.env, self.aliases, self._props)
+                    if self._is_optional(st.value):
+                        self.optnames.add(st.targets[0].id)
+                    else:
+                        self.optnames.discard(st.targets[0].id)
                 except _Unknown:
                     self.env.pop(st.targets[0].id, None)
+                    self.optnames.discard(st.targets[0].id)
                 continue
             if isinstance(st, (ast.Assign, ast.Delete)):
                 for t in st.targets:
@@ -648,6 +703,11 @@ def _key_receiver(fn) -> Optional[str]:
     return None
 
 
+def _writes_lifecycle_attr(callee) -> bool:
+    return any(isinstance(n, ast.Attribute) and isinstance(n.ctx, (ast.Store, ast.Del)) and n.attr in ("key", "session_id", "_deleted") and isinstance(n.value, ast.Name)
+               for n in ast.walk(callee.node))
+
+
 def _kd(K, D):
     return f"{'key=None' if K else 'key'},{'_deleted' if D else 'not-_deleted'}"
 
@@ -680,8 +740,14 @@ def r5(ctx):
         ctx.check(not bad, f"{f.key}:post[{'to_transient' if T else 'detach'},{_kd(K, D)}]", "; ".join(bad),
                   f"-> {_kd(post['K'], post['D'])}, unattached", f.loc)
     # (b) the documented API functions
+    _attached_objects_confirmed(ctx)
+    preds = _predicates(ctx)
+    from ._helpers_rob_g1 import normal_form
     for name, want_key in (("make_transient", False), ("make_transient_to_detached", True)):
-        f = ctx.func(f"{SESSION}::{name}")
+        f0 = ctx.func(f"{SESSION}::{name}")
+        # helpers of the module that write lifecycle attributes of a state handed to them are inlined; single-expression
+        # accessors (`_state_session(state)` == `state.session`) are expanded inside expressions
+        f = normal_form(ctx, f0, depth=2, aliases=False, want=_writes_lifecycle_attr)
         recv = _key_receiver(f.node)
         ctx.require(recv is not None, f"{name} does not write the key of a state")
         sim = _Sim(ctx, f.key, recv, {}, f.params)
@@ -692,8 +758,186 @@ def r5(ctx):
             if post["K"] == want_key:
                 bad.append("the object still has an identity key" if not want_key else "the object gets no identity key")
             if post["D"]:
-                bad.append("`_deleted` stays set" + ("" if want_key else " on an object without identity key"))
-            ctx.check(not bad, f"{f.key}:post[{_kd(K, D)}]", "; ".join(bad), f"-> {_kd(post['K'], post['D'])}", f.loc)
+                bad.append("`_deleted` stays set" + ("" if want_key else " on an object without identity key (it then reports `deleted` instead of `persistent` "
+                                                                     "once it is added and flushed again, and Session.add refuses it as 'has been deleted')"))
+            pre = _one(preds, K, False, D)
+            ctx.check(not bad, f"{f.key}:post[{_kd(K, D)}]", f"{name}() of a {pre} object ({_kd(K, D)}, no session): " + "; ".join(bad), f"-> {_kd(post['K'], post['D'])}", f.loc)
+
+
+# ---------------------------------------------------------------------- R6
+REMOVERS = ("pop", "safe_discard", "discard", "_fast_discard", "remove")
+
+
+def _home_resolver(fn):
+    """expr -> ('session' | 'tx', attribute) when `expr` is a collection attribute of the Session (`self.X`) or of one of its
+    transactions (`self._transaction.X`, a local bound to `self._transaction`, a loop variable over
+    `<transaction>._iterate_self_and_parents()`); None otherwise."""
+    from ..astutil import name_stores
+    tx_names = set()
+    for _ in range(2):
+        for n, v, st in name_stores(fn):
+            if v is not None and isinstance(v, ast.Attribute) and v.attr == "_transaction" and dotted(v.value) == "self":
+                tx_names.add(n)
+        for lp in [x for x in walk_local(fn) if isinstance(x, ast.For) and isinstance(x.target, ast.Name)]:
+            it = lp.iter
+            if isinstance(it, ast.Call) and isinstance(it.func, ast.Attribute) and it.func.attr == "_iterate_self_and_parents":
+                r = it.func.value
+                if dotted(r) == "self._transaction" or (isinstance(r, ast.Name) and r.id in tx_names):
+                    tx_names.add(lp.target.id)
+
+    def home(e):
+        if not isinstance(e, ast.Attribute):
+            return None
+        b = e.value
+        if dotted(b) == "self":
+            return ("session", e.attr)
+        if dotted(b) == "self._transaction" or (isinstance(b, ast.Name) and b.id in tx_names):
+            return ("tx", e.attr)
+        return None
+
+    return home
+
+
+def _home_text(h):
+    return ("self." if h[0] == "session" else "self._transaction.") + h[1]
+
+
+@R.rule("C35-R6", floor=4, template="T-SIBLING",
+        desc="Session.expunge_all() is expunge(obj) for every object of the session: each collection from which the one-object form "
+             "(Session._expunge_states) removes the state it detaches -- the places an attached state can live: pending in _new, in the "
+             "identity map (with its delete mark), or, flushed as deleted, only in the current transaction's _deleted -- is collected into what "
+             "expunge_all hands to InstanceState._detach_states (before it is reset), or, for a collection whose members are members of another "
+             "one, at least reset; otherwise those objects stay attached (session_id set, state 'deleted') to a session that was closed")
+def r6(ctx):
+    from ..astutil import name_stores
+    from ._helpers_rules_d import call_nodes
+    one = ctx.func(f"{SESSION}::Session._expunge_states")
+    ctx.functions_analysed.add(one.key)
+    loops = [n for n in one.node.body if isinstance(n, ast.For) and isinstance(n.target, ast.Name) and isinstance(n.iter, ast.Name) and n.iter.id in one.params]
+    ctx.require(len(loops) == 1, "_expunge_states is not one loop over the states handed to it")
+    lp = loops[0]
+    v = lp.target.id
+    home1 = _home_resolver(one.node)
+    sb1 = single_binds(one.node)
+    g1 = ctx.cfg(one)
+    ctx.require(any(isinstance(c.func, ast.Attribute) and c.func.attr == "_detach_states" for c in calls_in(one.node)), "_expunge_states does not detach the states")
+
+    def is_v(e):
+        return isinstance(e, ast.Name) and e.id == v
+
+    from ..astutil import own_exprs, test_atoms
+    bb1 = bool_binds(one.node)
+    homes: Dict[Tuple[str, str], bool] = {}  # home -> primary?
+    for n in g1.nodes:
+        if n.kind != "stmt" or not isinstance(n.stmt, ast.stmt):
+            continue
+        found = []
+        if isinstance(n.stmt, ast.Delete):
+            found += [t.value for t in n.stmt.targets if isinstance(t, ast.Subscript) and is_v(t.slice)]
+        for c in [c for e in own_exprs(n.stmt) for c in calls_in(e)]:
+            if isinstance(c.func, ast.Attribute) and c.func.attr in REMOVERS and c.args and is_v(c.args[0]):
+                found.append(c.func.value)
+        for coll in found:
+            h = home1(expand(coll, sb1)) or home1(coll)
+            ctx.require(h is not None, f"_expunge_states removes the state from `{unparse(coll)}`, which is neither an attribute of the session nor of its transaction")
+            # membership outcomes that dominate the removal: a positive one on ANOTHER home makes this a collection of members of that home
+            secondary = False
+            for t, pol in g1.edge_guards(n.id):
+                for atom, apol in test_atoms(expand(t, bb1), pol):
+                    try:
+                        a = ast.parse(atom, mode="eval").body
+                    except SyntaxError:
+                        continue
+                    other = None
+                    if isinstance(a, ast.Compare) and len(a.ops) == 1 and isinstance(a.ops[0], ast.In) and is_v(a.left):
+                        other = home1(expand(a.comparators[0], sb1))
+                    elif isinstance(a, ast.Call) and isinstance(a.func, ast.Attribute) and a.func.attr in ("contains_state", "__contains__") and a.args and is_v(a.args[0]):
+                        other = home1(expand(a.func.value, sb1))
+                    if other is not None and other != h and apol:
+                        secondary = True
+            homes[h] = homes.get(h, True) and not secondary
+    ctx.require(len(homes) >= 3, f"_expunge_states removes a state only from {sorted(_home_text(h) for h in homes)}")
+
+    f = ctx.func(f"{SESSION}::Session.expunge_all")
+    ctx.functions_analysed.add(f.key)
+    g = ctx.cfg(f)
+    pm = f.module.parents()
+    home = _home_resolver(f.node)
+    det = call_nodes(g, lambda c: isinstance(c.func, ast.Attribute) and c.func.attr == "_detach_states" and c.args)
+    ctx.require(det, "expunge_all does not call _detach_states")
+    # everything that flows into the collection handed to _detach_states: (expression, CFG node of the statement that reads it)
+    flows: List[Tuple[ast.expr, int]] = []
+    seen = set()
+
+    def add(e, nid, depth=0):
+        flows.append((e, nid))
+        if depth >= 3:
+            return
+        for nm in {x.id for x in ast.walk(e) if isinstance(x, ast.Name) and isinstance(x.ctx, ast.Load)} - seen:
+            seen.add(nm)
+            for x in g.nodes:
+                st = x.stmt
+                if x.kind != "stmt" or not isinstance(st, ast.stmt):
+                    continue
+                if isinstance(st, (ast.Assign, ast.AnnAssign)) and st.value is not None and any(isinstance(t, ast.Name) and t.id == nm for t in (st.targets if isinstance(st, ast.Assign) else [st.target])):
+                    add(st.value, x.id, depth + 1)
+                elif isinstance(st, ast.AugAssign) and isinstance(st.target, ast.Name) and st.target.id == nm:
+                    add(st.value, x.id, depth + 1)
+                elif isinstance(st, ast.Expr) and isinstance(st.value, ast.Call) and isinstance(st.value.func, ast.Attribute) and isinstance(st.value.func.value, ast.Name) \
+                        and st.value.func.value.id == nm and st.value.func.attr in ("extend", "append", "update", "add") and st.value.args:
+                    add(st.value.args[0], x.id, depth + 1)
+            # a loop that feeds the name: `for t in <iter>: name.extend(t.X)` is covered by the statement above; a loop variable
+            # that is itself read (`for s in self._new: name.append(s)`) contributes its iterable
+            for lp_ in [y for y in walk_local(f.node) if isinstance(y, ast.For) and isinstance(y.target, ast.Name) and y.target.id == nm]:
+                for x in g.nodes_for(lp_):
+                    add(lp_.iter, x, depth + 1)
+
+    for d in det:
+        c = next(c for c in calls_in(g.node(d).stmt) if isinstance(c.func, ast.Attribute) and c.func.attr == "_detach_states" and c.args)
+        add(c.args[0], d)
+
+    def resets_of(h):
+        out = []
+        for x in g.nodes:
+            st = x.stmt
+            if x.kind != "stmt" or not isinstance(st, ast.stmt):
+                continue
+            if isinstance(st, (ast.Assign, ast.AnnAssign)):
+                tg = st.targets if isinstance(st, ast.Assign) else [st.target]
+                if any(home(t) == h for t in tg):
+                    out.append(x.id)
+            elif isinstance(st, ast.Expr) and isinstance(st.value, ast.Call) and isinstance(st.value.func, ast.Attribute) and st.value.func.attr in ("clear", "_kill") \
+                    and home(st.value.func.value) == h:
+                out.append(x.id)
+        return out
+
+    for h, primary in sorted(homes.items()):
+        key = f"{f.key}:detaches[{_home_text(h)}]"
+        reads = [nid for e, nid in flows if any(home(a) == h for a in ast.walk(e))]
+        resets = resets_of(h)
+        if reads:
+            # "emptied before collected" within one pass: the heads of the loops around the collecting statement cut the paths
+            # (`for t in <transactions>: all.extend(t._deleted); t._deleted.clear()` empties the map of ANOTHER transaction next time round)
+            w = None
+            for rd in reads:
+                heads = []
+                for a in ancestors(pm, g.node(rd).stmt):
+                    if a is f.node:
+                        break
+                    if isinstance(a, (ast.For, ast.While)):
+                        heads += [x for x in g.nodes_for(a) if g.node(x).kind in ("for", "test")]
+                w = w or (g.witness(resets, [rd], avoid=heads) if resets else None)
+            ctx.check(w is None, key, f"{_home_text(h)} is emptied before its states are collected for _detach_states: they are dropped from the session still attached",
+                      "collected for _detach_states" + (" and reset afterwards" if resets else ""), f.loc, g.describe_path(w) if w else None)
+        elif not primary and resets:
+            ctx.ok(key, "its members are members of another collected collection; reset")
+        else:
+            what = "neither detaches nor resets" if not resets else "resets but does not detach"
+            ctx.violation(key, f"expunge_all() {what} the states kept in {_home_text(h)}, although expunge(obj) (_expunge_states) removes a state from there and detaches it"
+                               + ("; a state that lives only there -- an object whose DELETE was flushed is discarded from the identity map and kept in the "
+                                  "transaction's _deleted until the transaction ends -- stays attached: after Session.close() it still reports `deleted` "
+                                  "(session_id set, no deleted_to_detached / deleted_to_persistent event) for a transaction that no longer exists" if h == ("tx", "_deleted") else ""),
+                          f.loc)
 
 
 # ---------------------------------------------------------------------- self-test battery
@@ -821,3 +1065,50 @@ R.mutant("benign-update-impl-event-alias-and-named-guard", SESSION,
 R.mutant("update-impl-event-alias-guard-forgets-was-deleted", SESSION,
          sub(_UI_OLD, "        else:\n            reverted = revert_deletion\n            deleted_to_persistent = self.dispatch.deleted_to_persistent or None\n"
                       "            if reverted and deleted_to_persistent is not None:\n                deleted_to_persistent(self, state)\n"), "C35-R3")
+
+# ---------------------------------------------------------------------- str2-n: round-2 seed C35_3 (make_transient) and benign shapes around it
+_MT_SESS = "    s = _state_session(state)\n    if s:\n        s._expunge_states([state])\n"
+_MT_TAIL = "    if state.key:\n        del state.key\n    if state._deleted:\n        del state._deleted\n\n\ndef make_transient_to_detached("
+_MT_TAIL_KEY = "    if state.key:\n        del state.key\n\n\ndef make_transient_to_detached("
+R.mutant("seed-make-transient-clears-deleted-only-with-a-session", SESSION,
+         chain(sub(_MT_SESS, _MT_SESS + "\n        if state._deleted:\n            del state._deleted\n"), sub(_MT_TAIL, _MT_TAIL_KEY)), "C35-R5")
+R.mutant("make-transient-clears-deleted-only-if-session-is-not-none", SESSION,
+         sub(_MT_TAIL, "    if state.key:\n        del state.key\n    if s is not None and state._deleted:\n        del state._deleted\n\n\ndef make_transient_to_detached("), "C35-R5")
+R.mutant("make-transient-erases-key-only-with-a-session", SESSION,
+         chain(sub(_MT_SESS, _MT_SESS + "        if state.key:\n            del state.key\n"),
+               sub(_MT_TAIL, "    if state._deleted:\n        del state._deleted\n\n\ndef make_transient_to_detached(")), "C35-R5")
+_MT_DEF = "def make_transient(instance: object) -> None:\n"
+R.mutant("make-transient-identity-helper-forgets-deleted", SESSION,
+         chain(sub(_MT_TAIL, "    _erase_identity(state)\n\n\ndef make_transient_to_detached("),
+               sub(_MT_DEF, "def _erase_identity(state: InstanceState[Any]) -> None:\n    if state.key:\n        del state.key\n\n\n" + _MT_DEF)), "C35-R5")
+R.mutant("benign-make-transient-session-is-not-none", SESSION,
+         sub(_MT_SESS, "    owner = _state_session(state)\n    if owner is not None:\n        owner._expunge_states([state])\n"), None)
+R.mutant("benign-make-transient-session-attribute-guard-clause", SESSION,
+         sub(_MT_SESS, "    attached = state.session is not None\n    if attached:\n        state.session._expunge_states([state])\n"), None)
+R.mutant("benign-make-transient-identity-helper", SESSION,
+         chain(sub(_MT_TAIL, "    _erase_identity(state)\n\n\ndef make_transient_to_detached("),
+               sub(_MT_DEF, "def _erase_identity(state: InstanceState[Any]) -> None:\n    if state._deleted:\n        del state._deleted\n    if state.key:\n        del state.key\n\n\n" + _MT_DEF)), None)
+R.mutant("benign-make-transient-flag-remembered-and-reordered", SESSION,
+         sub(_MT_TAIL, "    was_deleted = state._deleted\n    if was_deleted:\n        state._deleted = False\n    if state.key is not None:\n        del state.key\n\n\ndef make_transient_to_detached("), None)
+
+# ---- C35-R6 (fires on the unchanged tree for `self._transaction._deleted`: findings/C35_close_leaves_deleted_state_attached.py)
+_EA_OLD = "        all_states = self.identity_map.all_states() + list(self._new)\n        self.identity_map._kill()\n        self.identity_map = identity._WeakInstanceDict()\n        self._new = {}\n        self._deleted = {}\n"
+R.mutant("expunge-all-forgets-pending-objects", SESSION, sub(_EA_OLD, _EA_OLD.replace(" + list(self._new)", "")), "C35-R6")
+R.mutant("expunge-all-keeps-delete-marks", SESSION, sub(_EA_OLD, _EA_OLD.replace("        self._deleted = {}\n", "")), "C35-R6")
+R.mutant("expunge-all-resets-new-before-collecting", SESSION,
+         sub(_EA_OLD, "        self._new = {}\n" + _EA_OLD.replace("        self._new = {}\n", "")), "C35-R6")
+R.mutant("expunge-all-detaches-only-identity-map-via-extend", SESSION,
+         sub(_EA_OLD, _EA_OLD.replace("        all_states = self.identity_map.all_states() + list(self._new)\n", "        all_states = []\n        all_states.extend(self.identity_map.all_states())\n")), "C35-R6")
+R.mutant("benign-expunge-all-collects-with-extend", SESSION,
+         sub(_EA_OLD, _EA_OLD.replace("        all_states = self.identity_map.all_states() + list(self._new)\n",
+                                      "        all_states = list(self.identity_map.all_states())\n        all_states.extend(self._new)\n")), None)
+R.mutant("benign-expunge-all-locals-and-reordered-resets", SESSION,
+         sub(_EA_OLD, "        pending = list(self._new)\n        persistent = self.identity_map.all_states()\n        all_states = persistent + pending\n        self._deleted = {}\n        self._new = {}\n"
+                      "        self.identity_map._kill()\n        self.identity_map = identity._WeakInstanceDict()\n"), None)
+R.mutant("benign-expunge-states-transaction-alias-and-guard-clauses", SESSION,
+         sub("            elif self._transaction:\n                # state is \"detached\" from being deleted, but still present\n                # in the transaction snapshot\n                self._transaction._deleted.pop(state, None)\n",
+             "            else:\n                trans = self._transaction\n                if trans is not None:\n                    trans._deleted.pop(state, None)\n"), None)
+# a repair of the finding written two ways: both must be accepted (no violation at all; judged silent relative to the baseline)
+R.mutant("benign-fix-expunge-all-detaches-transaction-deleted", SESSION,
+         sub(_EA_OLD, _EA_OLD + "        if self._transaction is not None:\n            for trans in self._transaction._iterate_self_and_parents():\n"
+                                "                all_states.extend(s for s in trans._deleted if s not in all_states)\n                trans._deleted.clear()\n"), None)
